@@ -42,6 +42,12 @@ MUTANTS = [
     ("C19", "cuqi/samples/_samples.py", "new_samples.samples = self.samples[...,Nb::Nt]", "new_samples.samples = self.samples[...,Nb+1::Nt]"),
     ("C19", "cuqi/samples/_samples.py", "return self._compute_numpy_stats(np.var, axis=-1)", "return self._compute_numpy_stats(np.var, axis=-1, ddof=1)"),
     ("C19", "cuqi/samples/_samples.py", "datadict =  dict(zip(variables,self.samples[variable_indices,:]))", "datadict =  dict(zip(variables,self.samples[variable_indices,:][::-1]))"),
+    # C14
+    ("C14", "cuqi/experimental/mcmc/_sampler.py", "            self._call_callback(self.current_point, len(self._samples)-1)\n                \n        return self", "            self._call_callback(self.current_point, idx)\n                \n        return self"),
+    ("C14", "cuqi/experimental/mcmc/_langevin_algorithm.py", "    _STATE_KEYS = Sampler._STATE_KEYS.union({'current_target_logd', 'scale', 'current_target_grad'})", "    _STATE_KEYS = Sampler._STATE_KEYS.union({'current_target_logd', 'scale'})"),
+    ("C14", "cuqi/sampler/_mh.py", "        samples = samples[:, Nb:]\n        target_eval = target_eval[Nb:]\n        accave = acc[Nb:].mean()   \n        print('\\nAverage acceptance rate:', accave, '\\n')", "        samples = samples[:, Nb+1:] if Nb > 0 else samples\n        target_eval = target_eval[Nb:]\n        accave = acc[Nb:].mean()   \n        print('\\nAverage acceptance rate:', accave, '\\n')"),
+    ("C14", "cuqi/experimental/mcmc/_pcn.py", "    _STATE_KEYS = Sampler._STATE_KEYS.union({'scale', 'current_likelihood_logd', 'lambd'})", "    _STATE_KEYS = Sampler._STATE_KEYS.union({'scale', 'lambd'})"),
+    ("C14", "cuqi/experimental/mcmc/_gibbs.py", "            self.samples[par_name].append(self.current_samples[par_name])", "            self.samples[par_name].insert(max(len(self.samples[par_name])-1, 0), self.current_samples[par_name])"),
     # C15
     ("C15", "cuqi/problem/_problem.py", "            x_MAP = x0 + Cx@(A.T@np.linalg.solve(sysm,rhs))", "            x_MAP = Cx@(A.T@np.linalg.solve(sysm,rhs))"),
     ("C15", "cuqi/problem/_problem.py", "            sysm = A@Cx@A.T+Ce", "            sysm = A@Cx@A.T"),
